@@ -42,6 +42,15 @@ def cases(tier, seed):
         d = len(sin)
         for k in (0, d - 1):
             cs.append({'scen': 'tt_layer', 's': {'size_in': sin, 'size_out': sout, 'rank': [1] + [2] * (d - 1) + [1], 'batch': [2], 'init': 'He', 'dtype': 'float64', 'call': True, 'replace_core': k}})
+    # deep copies of a layer; constructor arguments passed by position
+    for sin, sout in [([2, 3], [3, 1]), ([3], [2]), ([2, 1, 2], [1, 3, 2])]:
+        d = len(sin)
+        base = {'size_in': sin, 'size_out': sout, 'rank': [1] + [2] * (d - 1) + [1], 'batch': [2], 'dtype': 'float64', 'call': True}
+        for init in ('He', 'Glo'):
+            cs.append({'scen': 'tt_layer', 's': dict(base, init=init, mode='deepcopy')})
+            for ctor in ('positional', 'positional_dtype'):
+                for dt in ('float64', 'float32'):
+                    cs.append({'scen': 'tt_layer', 's': dict(base, init=init, ctor=ctor, dtype=dt)})
     # precision changed after construction
     for sin, sout in [([2, 3], [3, 1]), ([3], [2])]:
         d = len(sin)
